@@ -50,7 +50,17 @@ def value_reliable(info):
 def long_reliable(info):
     """8-digit fast path + per-buffer counting mis-count when the separator is set but the integer or fraction
     iterator is contiguous (DESIGN section 8, C13): keep such formats to `pn` ops for long digit runs."""
-    return info["sep"] == 0 or (info["int_sep"] and info["frac_sep"])
+    if info["sep"] == 0:
+        return True
+    # I+T+C exactly (no L): `is_itc!(@first)` answers differently at buffer start (prev = None) and after a
+    # sign / decimal point, so the stored integer/fraction slices are re-scanned differently from the first scan
+    # and the many-digit mantissa is built from a separator byte (C13 finding); keep those to `pn`.
+    fl = info["fmt"] >> 32
+    def comp(shift):
+        return tuple(bool(fl >> (shift + 3 * k) & 1) for k in range(4))  # (i, l, t, c)
+    if comp(0) == (True, False, True, True) or comp(1) == (True, False, True, True):
+        return False
+    return info["int_sep"] and info["frac_sep"]
 
 
 class Opts:
